@@ -644,6 +644,14 @@ class Natives(object):
         T('Index', 'index', 'Vec', vec_index); T('IndexMut', 'index_mut', 'Vec', vec_index)
         R('slice::iter slice::iter_mut', lambda m, th, a, g: St('Iter', {'v': a[0], 'i': ZERO}))
         T('IntoIterator', 'into_iter', 'Vec', lambda m, th, a, g: St('IntoIter', {'v': a[0], 'i': ZERO}))
+        def vec_drain_all(m, th, a, g):
+            # drain(..) over the full range: the elements move into an owning iterator, the vector is left empty
+            if 'RangeFull' not in (m.cur_callee or ''): raise EncodeError('Vec::drain is only modelled for the full range (..)')
+            v = m.load(a[0], g)
+            if not isinstance(v, St): return POISON
+            m.store(a[0].proj(('f', 'len')), ZERO, g)
+            return St('IntoIter', {'v': v, 'i': ZERO})
+        R('Vec::drain VecDeque::drain', vec_drain_all)
         def iter_next(m, th, a, g):
             it = m.load(a[0], g)
             if not isinstance(it, St): return POISON
